@@ -171,6 +171,9 @@ See also: fixed, rational
         #  normally that's the guard digits, but it could be more if display<precision
         #    or less if display>precision
         gv = (v + self.__scaledr) // self.__scaledd
+        neg = gv < 0    # print sign and magnitude: floor division would misprint a negative value
+        if neg:
+            gv = -gv
         if Guarded.display <= Guarded.precision:
             s = Guarded.__dfmt % (gv // self.__scaled, gv % self.__scaled)
         else:
@@ -178,7 +181,7 @@ See also: fixed, rational
             #  we'll show <precision> digits, then _, then (display-precision) digits
             gvp = gv % self.__scaled
             s = Guarded.__dfmt % (gv // self.__scaled, gvp // self.__scaledg, gvp % self.__scaledg)
-        return s
+        return '-' + s if neg else s
 
     def __init__(self, arg, setval=False):
         "create a new Guarded object"
